@@ -13,3 +13,28 @@ package common
 //@   ensures [others] unchangedExcept("chan:*gossipv1.ObservationRequest", c)
 //@   modifies chan:*gossipv1.ObservationRequest
 //@   nopanic
+
+//@ func (g *GuardianSet) KeyIndex(addr common.Address) (idx int, ok bool)
+//@   props C01 C03 C13
+//@   requires g != nil
+//@   ensures [found-iff-member] ok <==> (exists n in 0..len(g.Keys) :: g.Keys[n] == addr)
+//@   ensures [index] ok ==> 0 <= idx && idx < len(g.Keys) && g.Keys[idx] == addr
+//@   nopanic
+//@   loop [range g.Keys]:
+//@     invariant [none-before] forall j in 0..$i :: g.Keys[j] != addr
+
+//@ func (g *GuardianSet) KeysAsHexStrings() (r []string)
+//@   props C13
+//@   requires g != nil
+//@   nopanic
+//@   loop [range g.Keys]:
+//@     invariant [len] len(r) == len(g.Keys)
+
+// Heartbeat table as seen by the processor's miss notification: a copy whose entries are
+// the non-nil heartbeats recorded by SetHeartbeat (assumed here; SetHeartbeat is only called
+// with the heartbeat decoded from a verified gossip message).
+//@ func (st *GuardianSetState) LastHeartbeat(addr common.Address) (ret map[peer.ID]*gossipv1.Heartbeat)
+//@   assume-contract
+//@   requires st != nil
+//@   ensures [copy] ret != nil && fresh(ret) && (forall k in dom(ret) :: ret[k] != nil)
+//@   modifies fresh map[peer.ID]*gossipv1.Heartbeat
